@@ -64,3 +64,18 @@ with open(os.path.join(out, "uncovered.txt"), "w") as fh:
         for l in miss:
             fh.write("%s:%d: %s\n" % (fn[len(build.REPO) + 1:], l, src[l - 1].strip() if l <= len(src) else ""))
 print("total %d/%d instrumented library lines executed; list: %s" % (hit, tot, os.path.join(out, "uncovered.txt")))
+# lines that look like statements inside function bodies but were never instrumented: templates no engine instantiates
+import re
+with open(os.path.join(out, "uninstantiated.txt"), "w") as fh:
+    n = 0
+    for fn in sorted(glob.glob(os.path.join(build.REPO, "include/foonathan/memory/**/*.hpp"), recursive=True)):
+        have = lines.get(fn, {})
+        for i, text in enumerate(open(fn, errors="replace").read().splitlines(), 1):
+            t = text.strip()
+            if i in have or not t.endswith(";") or len(text) - len(text.lstrip()) < 16:
+                continue
+            if re.match(r"(using|typedef|friend|static_assert|template|extern|FOONATHAN_|//|///|\*|static const|class|struct|explicit|virtual|constexpr)", t):
+                continue
+            if t.startswith("return") or re.search(r"\w\(.*\)", t):
+                fh.write("%s:%d: %s\n" % (fn[len(build.REPO) + 1:], i, t)); n += 1
+print("statement-like lines never instrumented (uninstantiated templates, roughly): %d -> %s" % (n, os.path.join(out, "uninstantiated.txt")))
